@@ -744,6 +744,8 @@ class Executor:
             if loc and tgt.id in loc:
                 ty = parse_type(loc[tgt.id])
                 if val.ty is PY and isinstance(val.py, tuple) and val.py and val.py[0] in ("emptylist", "emptydict", "emptyset"):
+                    if len(val.py) > 1:
+                        self.__dict__.setdefault("defaultdicts", {})[tgt.id] = val.py[1]         # collections.defaultdict(<factory>)
                     val = self.model.empty_container(self, ty, st)
                 else:
                     val = self.coerce(val, ty)
@@ -910,7 +912,12 @@ def assigned_names(body):
                             names.add(x.id)
                         elif isinstance(x, ast.Attribute) and isinstance(x.value, ast.Name):
                             names.add(f"{x.value.id}.{x.attr}")
-            elif isinstance(n, ast.Call) and isinstance(n.func, ast.Attribute) and isinstance(n.func.value, ast.Name):
-                if n.func.attr in ("append", "add", "update", "extend", "setdefault", "pop", "insert", "sort", "discard", "remove", "clear"):
-                    names.add(n.func.value.id)
+            elif isinstance(n, ast.Call) and isinstance(n.func, ast.Attribute) and \
+                    n.func.attr in ("append", "add", "update", "extend", "setdefault", "pop", "insert", "sort", "discard", "remove", "clear"):
+                # a mutator on a name, or on an element reached from a name (`d[k].add(v)` changes what `d` holds)
+                root = n.func.value
+                while isinstance(root, ast.Subscript):
+                    root = root.value
+                if isinstance(root, ast.Name):
+                    names.add(root.id)
     return names
